@@ -78,9 +78,17 @@ fn parse_header(header: &str) -> Result<Header, ParseError> {
             })
         }
         Some(UNKNOWN) => {
-            while iterator.next_if(|&s| s != NEWLINE).is_some() {}
-
-            Addresses::Unknown
+            // Anything between the protocol and the end of the line is ignored.
+            return if header.ends_with(PROTOCOL_SUFFIX) {
+                Ok(Header {
+                    header: Cow::Borrowed(header),
+                    addresses: Addresses::Unknown,
+                })
+            } else if terminated {
+                Err(ParseError::InvalidSuffix)
+            } else {
+                Err(ParseError::MissingNewLine)
+            };
         }
         Some(protocol) if protocol.is_empty() && iterator.peek().is_none() => {
             return Err(ParseError::MissingProtocol)
